@@ -125,23 +125,24 @@ ALLINJ = ["unknown", "ping", "pong", "malformed", "toolong", "nosum", "readerr"]
 
 
 def mconn(c, tag, chid, prio, qcap, rcap, maxpayload, lens, maxmsgs, sched, ticks=0, eager=True, injects=(), stride=1,
-          replay=True, emptyloss=False, inv="Inv", frag="max", batching="each", drainafter=()):
+          replay=True, emptyloss=False, inv="Inv", frag="max", batching="each", drainafter=(), stopmode="off", stoplimit=0):
     """emptyloss / drainafter: companion runs with a named deviation switched on; TLC must violate `inv`."""
     cfg = ("SPECIFICATION Spec\nCONSTANTS\n  ChId <- ChIdV\n  Prio <- PrioV\n  QCap <- QCapV\n  RCap <- RCapV\n  MaxPayload = %d\n"
            "  EmptyLoss = %s\n  DrainAfter = %s\n  Lens = %s\n  MaxMsgs = %d\n  MaxTicks = %d\n  Sched = \"%s\"\n  Frag = \"%s\"\n"
-           "  EagerRecv = %s\n  Batching = \"%s\"\n  Injects = %s\nVIEW View\nINVARIANT %s\n%s") % (
+           "  EagerRecv = %s\n  Batching = \"%s\"\n  Injects = %s\n  StopMode = \"%s\"\n  StopLimit = %d\nVIEW View\nINVARIANT %s\n%s") % (
         maxpayload, "TRUE" if emptyloss else "FALSE", sset('"%s"' % k for k in drainafter), sset(lens), maxmsgs, ticks, sched, frag,
-        "TRUE" if eager else "FALSE", batching, sset('"%s"' % k for k in injects), inv, "ACTION_CONSTRAINT Dump\n" if replay else "")
+        "TRUE" if eager else "FALSE", batching, sset('"%s"' % k for k in injects), stopmode, stoplimit, inv, "ACTION_CONSTRAINT Dump\n" if replay else "")
     dump = os.path.join(c.scratch, "mc-%s.dump" % tag) if replay else None
     r = c.tlc("conn", "MCgen.cfg", module="MCgen", files={"MCgen.tla": mconn_files("MC_MConn", chid, prio, qcap, rcap), "MCgen.cfg": cfg},
               dump_to=dump, timeout=1500, tag="MC_MConn " + tag)
-    if emptyloss or drainafter:
+    if emptyloss or drainafter or stoplimit:
         return need_violation(c, r, "MC_MConn %s with a named deviation switched on" % tag, inv)
     need_ok(c, r, "MC_MConn " + tag)
     if replay:
         e = mconn_env(chid, prio, qcap, rcap, maxpayload)
         e.update(CONN_DUMP=dump, CONN_SCHED=sched, CONN_BATCH=batching, CONN_TAG="mc-" + tag, CONN_STRIDE=stride)
-        g = c.gotest("conn", "TestMConnReplay", env=e, timeout=1500, tag="mconn replay " + tag)
+        g = c.gotest("conn", "TestMConnFlushStop" if stopmode == "drain" else "TestMConnReplay", env=e, timeout=1500,
+                     tag="mconn replay " + tag)
         c.absorb(g)
         os.remove(dump)
 
@@ -319,6 +320,16 @@ def run(c):
     if th:
         mconn(c, "batch-any-3msg", lens=[1, 13], maxmsgs=3, sched="any", batching="any", stride=2, **two)
         mconn(c, "batch-inject-3msg", lens=[1, 5], maxmsgs=3, sched="any", batching="any", injects=ALLINJ, stride=2, **two)
+    # graceful close: FlushStop with 1..75 packets pending (one long message of 10 / 11 / 25 packets, short ones, two channels) on a
+    # real running pair; everything accepted before the close must be delivered.  Companion: draining at most 10 packets
+    # (one sendSomePacketMsgs) must violate AllDelivered in the model
+    fs = dict(chid=[1, 2], prio=[1, 3], qcap=[3, 3], rcap=[200, 200], maxpayload=4, lens=[1, 40, 44, 100], maxmsgs=3, sched="prio",
+              stopmode="drain")
+    mconn(c, "flushstop", **fs)
+    mconn(c, "flushstop", replay=False, stoplimit=10, **fs)
+    if th:
+        mconn(c, "flushstop-1024", chid=[32, 33], prio=[1, 5], qcap=[3, 3], rcap=[30000, 30000], maxpayload=1024,
+              lens=[1, 10240, 10241, 25000], maxmsgs=3, sched="prio", stopmode="drain")
     # the invariants are not vacuous: a receive loop that only leaves the switch after an error (bare `break`) is found by TLC
     mconn(c, "batch-any", lens=[1, 5, 10, 13], maxmsgs=2, sched="any", batching="any", replay=False, drainafter=["cap"],
           inv="NoDeliveryAfterErrorInv", **two)
